@@ -7,7 +7,7 @@
    case on the real code; the laws are reported per setting (they are statements about armi's declarations). *)
 EXTENDS SettingSchema, Json, IOUtils
 Catalog  == JsonDeserialize(IOEnv.C17_CATALOG)
-Settings == Catalog.settings
+Settings == [k \in 1..Len(Catalog.settings) |-> EffDecl(Catalog.settings[k])]      \* declarations with the plugins' modifiers merged
 Today    == Catalog.today
 N        == Len(Settings)
 VARIABLE i
@@ -67,6 +67,6 @@ Emit ==
         LET s == Settings[i] IN
         /\ \A j \in 1..Len(Pool(s)) : PrintT(ToJson(Case(s, j)))
         /\ PrintT(ToJson([law |-> s.name, defaultAdmitted |-> DefaultAdmitted(s),
-                          defaultDump |-> Dump(s, s.default),
+                          defaultDump |-> Dump(s, s.default), effDefault |-> s.default, effOptions |-> s.options,
                           active |-> SeqOfSet(ActiveOld(s, Today)), expired |-> SeqOfSet(ExpiredOld(s, Today))]))
 =====================================================================================================
